@@ -57,7 +57,8 @@ func (k Keeper) BridgeCallHandler(ctx sdk.Context, msg *types.MsgBridgeCallClaim
 			},
 		)
 	}
-	return k.BridgeCallFailedRefund(ctx, msg.GetRefundAddr(), baseCoins, msg.EventNonce)
+	// the coins were credited to the receiver above: the refund is built from there
+	return k.BridgeCallFailedRefund(ctx, receiverAddr, msg.GetRefundAddr(), baseCoins, msg.EventNonce)
 }
 
 func (k Keeper) BridgeCallEvm(ctx sdk.Context, sender, refundAddr, to, receiverAddr common.Address, baseCoins sdk.Coins, data, memo []byte, value sdkmath.Int, isMemoSendCallTo bool) error {
@@ -101,8 +102,8 @@ func (k Keeper) BridgeCallEvm(ctx sdk.Context, sender, refundAddr, to, receiverA
 	return nil
 }
 
-func (k Keeper) BridgeCallFailedRefund(ctx sdk.Context, refundAddr common.Address, baseCoins sdk.Coins, eventNonce uint64) error {
-	outCallNonce, err := k.AddOutgoingBridgeCall(ctx, refundAddr, refundAddr, baseCoins, common.Address{}, nil, nil, eventNonce)
+func (k Keeper) BridgeCallFailedRefund(ctx sdk.Context, holder, refundAddr common.Address, baseCoins sdk.Coins, eventNonce uint64) error {
+	outCallNonce, err := k.AddOutgoingBridgeCall(ctx, holder, refundAddr, baseCoins, common.Address{}, nil, nil, eventNonce)
 	if err != nil {
 		return err
 	}
